@@ -103,7 +103,10 @@ fn sp(n: u8) -> &'static str {
         0 => "",
         1 => " ",
         2 => "  ",
-        _ => "\t ",
+        3 => "\t ",
+        // Unicode white space that is not ASCII (no-break space; em space + ideographic space)
+        4 => "\u{a0}",
+        _ => "\u{2003}\u{3000}",
     }
 }
 
@@ -440,6 +443,8 @@ pub struct Config {
     pub namespaces: Option<Vec<String>>,
     pub inherits: Vec<(String, String)>,
     pub locales_dir: Option<String>,
+    /// which permutation of the table's fields is written (0 = default order)
+    pub field_order: usize,
     /// extra lines inside the [package.metadata.leptos-i18n] table
     pub extra_fields: Vec<String>,
     /// text before / after the i18n table in Cargo.toml
@@ -485,26 +490,38 @@ impl Config {
     pub fn toml_table(&self) -> String {
         let mut t = String::from("[package.metadata.leptos-i18n]\n");
         let q = |s: &str| format!("\"{}\"", s.replace('\\', "\\\\").replace('"', "\\\""));
+        let mut lines: Vec<String> = vec![];
         if let Some(d) = &self.default {
-            let _ = writeln!(t, "default = {}", q(d));
+            lines.push(format!("default = {}", q(d)));
         }
         if let Some(l) = &self.locales {
             let l: Vec<String> = l.iter().map(|s| q(s)).collect();
-            let _ = writeln!(t, "locales = [{}]", l.join(", "));
+            lines.push(format!("locales = [{}]", l.join(", ")));
         }
         if let Some(ns) = &self.namespaces {
             let l: Vec<String> = ns.iter().map(|s| q(s)).collect();
-            let _ = writeln!(t, "namespaces = [{}]", l.join(", "));
+            lines.push(format!("namespaces = [{}]", l.join(", ")));
         }
         if let Some(d) = &self.locales_dir {
-            let _ = writeln!(t, "locales-dir = {}", q(d));
+            lines.push(format!("locales-dir = {}", q(d)));
         }
         if !self.inherits.is_empty() {
             let l: Vec<String> = self.inherits.iter().map(|(k, v)| format!("{} = {}", q(k), q(v))).collect();
-            let _ = writeln!(t, "inherits = {{ {} }}", l.join(", "));
+            lines.push(format!("inherits = {{ {} }}", l.join(", ")));
         }
         for e in &self.extra_fields {
-            let _ = writeln!(t, "{e}");
+            lines.push(e.clone());
+        }
+        // the order in which the fields are written: the `field_order`-th permutation (0 = as above)
+        if self.field_order > 0 && lines.len() > 1 {
+            let perms = crate::enumerate::permutations(lines.len().min(6));
+            let perm = &perms[self.field_order % perms.len()];
+            let head: Vec<String> = perm.iter().map(|i| lines[*i].clone()).collect();
+            let tail: Vec<String> = lines.iter().skip(perm.len()).cloned().collect();
+            lines = head.into_iter().chain(tail).collect();
+        }
+        for l in lines {
+            let _ = writeln!(t, "{l}");
         }
         t
     }
